@@ -23,6 +23,7 @@ def check(tree, rep, tier='quick', seed=0):
     R.k7_missing_key_raises(core, rep)   # a stored line never reads as missing again (a released waiter would wait forever)
     R.k20_ctrl_c(core, rep)              # the prompt loop ends on end-of-input instead of asking again for ever
     R.k18_cli_store_identity(core, rep)  # an answer marked met is really stored: otherwise the same question returns every round
+    R.k31_loops_end(core, rep)           # no loop of the core walks a possibly cyclic table without remembering where it has been
     R.k24_tracker_shape(core, rep)
     R.k24e_waiters_only_tracker_mutates(core, rep)
     rep.floor('core rule obligations', sum(v[0] for k, v in rep.rules.items() if k.startswith('K')), 25)
